@@ -71,6 +71,10 @@ func (fv *FnVC) mapGet(st *State, t types.Type, m, k string) (Val, string) {
 		fv.outOfSubset("map with aggregate key/value: " + ms.key)
 		return fv.unknown(st, ms.vt, "mv"), "false"
 	}
+	if fv.boundDepth == 0 && !fv.hasSkolem(k) {
+		// every key the code looks up is an instantiation point for assumed "forall k T" clauses
+		fv.instantiateLazies(k, ms.ksort)
+	}
 	present := fv.def("has", "Bool", and(not(eq(m, "LNil")), "(select "+fv.mapDom(st, ms, m)+" "+k+")"))
 	z := fv.zeroVal(ms.vt)
 	v := z
